@@ -43,6 +43,10 @@ for mod in ("strings", "fmt", "json", "time"):
         m = re.match(r"^`([A-Z]\w*)\((.*)\)\s*->\s*.*`\s*$", line.strip())
         if m:
             sigs.setdefault("%s.%s" % (mod, m.group(1)), arity(m.group(2)))
+for line in open(D + "stdlib-time.md"):
+    m = re.match(r"^\|\.([A-Z]\w*)\((.*?)\)\s*\|", line)
+    if m:
+        sigs.setdefault("time.Time." + m.group(1), arity(m.group(2)))
 json.dump({k: list(v) for k, v in sorted(sigs.items())}, open("/verif/tla/UgoCallSigs.json", "w"), indent=0)
 with open("/verif/tla/UgoCallSigs.tla", "w") as f:
     f.write("---------------------------- MODULE UgoCallSigs ----------------------------\n")
